@@ -158,6 +158,7 @@ INJECT = [
     ("native/column.rs", "src/mem_store/column.rs", "verif_nat_column", ("native",)),
     ("native/stringpack.rs", "src/stringpack.rs", "verif_nat_stringpack", ("native",)),
     ("native/operators.rs", "src/engine/operators/mod.rs", "verif_nat_operators", ("native",)),
+    ("native/inner_locustdb.rs", "src/scheduler/inner_locustdb.rs", "verif_nat_inner_locustdb", ("native",)),
 ]
 
 
